@@ -12,7 +12,7 @@ SHARDS = {"quick": 6, "thorough": 16}
 WATCHDOG = {"quick": 1200, "thorough": 7200}
 CASES = {"quick": 60, "thorough": 500}   # detector cases per shard (grid is split separately)
 FLOORS = {
-    "quick": {"distinct_nontrivial": 500, "grid_points": 800, "detector_fits": 200,
+    "quick": {"distinct_nontrivial": 350, "grid_points": 800, "detector_fits": 150,
               "tuned_fits": 40, "pelt_ladders": 40, "K6_evaluations": 1000},
     "thorough": {"distinct_nontrivial": 3000, "grid_points": 3000, "detector_fits": 3000},
 }
